@@ -33,6 +33,7 @@ def check(ctx):
   cls = prog.cls('scales/pool/watermark.py', 'WatermarkPoolSink')
   c07.r6(ctx, cls)
   r4(ctx)
+  timeout_only_from_timer(ctx)
   r5(ctx)
   from . import c10
   ctx.rule('C10.R1', 'shared with C10: the timer never fires before the stored deadline (quantisation rounds up), which the serial transports\' expiry check relies on')
@@ -355,6 +356,24 @@ def r5(ctx, backpressure=True):
   mar = [c for c in walk_no_nested(cd.node) if isinstance(c, ast.Call) and call_attr(c) == 'Marshal']
   okc = okc and len(mar) == 1
   ctx.ob('C12.R5', cd, 'the discard message names the discarded tag and is marshalled', okc, '_CreateDiscardMessage changed', why)
+  # the serializer used for the discard is built without a service interface (MessageSerializer(None)): its constructor must accept that
+  for mc in mar:
+    recv = mc.func.value
+    if isinstance(recv, ast.Call) and recv.args and isinstance(recv.args[0], ast.Constant) and recv.args[0].value is None:
+      cname = U(recv.func).split('.')[-1]
+      init = prog.try_func('scales/thriftmux/serializer.py', cname + '.__init__')
+      if init is not None and len(init.params) > 1:
+        pn = init.params[1]
+        raising = False
+        for ev, ex in enum_paths(ctx, init):
+          if ex[0] != 'raise':
+            continue
+          fs_ = facts(ev)
+          excluded = (pn, True) in fs_ or ('%sisNone' % pn, False) in fs_ or ('%sisnotNone' % pn, True) in fs_ or ('not' + pn, False) in fs_
+          if not excluded:
+            raising = True
+        ctx.ob('C12.R5', init, 'the discard serializer can be built without a service interface (%s(None))' % cname, not raising,
+               '%s.__init__ raises for a None service class, which is exactly how _CreateDiscardMessage builds it: the timeout callback dies and no Tdiscarded is sent' % cname, why)
   md = prog.func('scales/message.py', 'MethodDiscardMessage.__init__')
   ctx.ob('C12.R5', md, 'MethodDiscardMessage stores which/reason as given', 'self.which=which' in U(md.node).replace(' ', ''), 'MethodDiscardMessage changed', why, nontrivial=False)
   ow = prog.func('scales/message.py', 'MethodDiscardMessage.is_one_way')
@@ -367,3 +386,25 @@ def r5(ctx, backpressure=True):
   puts = [c for c in walk_no_nested(ap.node) if isinstance(c, ast.Call) and call_attr(c) == 'put' and '_send_queue' in U(c.func.value)]
   ok = len(puts) == 1 and isinstance(puts[0].args[0], ast.Tuple) and len(puts[0].args[0].elts) == 2 and U(puts[0].args[0].elts[1]).endswith('.properties')
   ctx.ob('C12.R5', ap, 'frames are queued together with their message properties', ok, 'queued item changed', 'the send loop reads the timeout event and tag from these properties')
+
+
+def timeout_only_from_timer(ctx, rule='C12.R4'):
+  """Serial transport: the only thing that turns into TimeoutError for the caller is the gevent.Timeout armed with the rest of the deadline."""
+  prog = ctx.prog
+  f = prog.func('scales/thrift/sink.py', 'SocketTransportSink._AsyncProcessTransaction')
+  why = ('TimeoutError is never delivered before t + T: the handler that answers TimeoutError may catch only the timer that was armed with deadline - now; a socket-level '
+         'timeout / OS error (ETIMEDOUT, keep-alive failure: TimeoutError is socket.timeout on current Pythons) is a transport fault that can happen long before the deadline')
+  n = 0
+  for t in [x for x in ast.walk(f.node) if isinstance(x, ast.Try)]:
+    for h in t.handlers:
+      makes = any(isinstance(c, ast.Call) and U(c.func).split('.')[-1] == 'TimeoutError' for st in h.body for c in ast.walk(st))
+      if not makes:
+        continue
+      n += 1
+      ty = U(h.type) if h.type is not None else None
+      ctx.ob(rule, f, 'TimeoutError is answered only for the deadline timer (except gevent.Timeout)', ty in ('gevent.Timeout', 'Timeout'),
+             'the handler that answers TimeoutError catches %s' % ty, why)
+  outside = [c for c in ast.walk(f.node) if isinstance(c, ast.Call) and U(c.func).split('.')[-1] == 'TimeoutError'
+             and not any(any(x is c for st in h.body for x in ast.walk(st)) for t in ast.walk(f.node) if isinstance(t, ast.Try) for h in t.handlers)]
+  ctx.ob(rule, f, 'no TimeoutError outside the timer handler', not outside, 'TimeoutError() is built outside an except handler', why, nontrivial=False)
+  ctx.floor(rule, 'timeout handlers of the serial transport', n, 1)
